@@ -44,6 +44,8 @@ type c17Child struct {
 	doviews    []c17View
 	final      *c17View
 	errs       []string
+	earlyAck   []string
+	earlyRead  []string
 	done       bool
 	doneErr    string
 	killedByUs bool
@@ -118,6 +120,10 @@ func c17RunChild(role, dir string, env []string, killAfterAcks int, wrap []strin
 			}
 		case "ERR":
 			out.errs = append(out.errs, strings.Join(f[1:], " "))
+		case "EARLYACK":
+			out.earlyAck = append(out.earlyAck, strings.Join(f[1:], " "))
+		case "EARLYREAD":
+			out.earlyRead = append(out.earlyRead, strings.Join(f[1:], " "))
 		case "done":
 			out.done = true
 			out.doneErr = strings.Join(f[1:], " ")
@@ -210,6 +216,8 @@ func (c *c17Ctx) c17MasterRound(s *c17Seq, round int, rnd *rand.Rand) bool {
 		fmt.Sprintf("VERIF_C17_WRITERS=%d", 2+rnd.IntN(4)), fmt.Sprintf("VERIF_C17_READERS=%d", 1+rnd.IntN(2)),
 		fmt.Sprintf("VERIF_C17_FAILPCT=%d", 5+rnd.IntN(15)), fmt.Sprintf("VERIF_C17_BIGPCT=%d", rnd.IntN(12)),
 	}
+	applyMax := []int{0, 1, 3, 10}[rnd.IntN(4)]
+	env = append(env, fmt.Sprintf("VERIF_C17_APPLY_MAX=%d", applyMax))
 	if round == 0 {
 		env = append(env, "VERIF_C17_CREATE=1")
 	}
@@ -222,7 +230,11 @@ func (c *c17Ctx) c17MasterRound(s *c17Seq, round int, rnd *rand.Rand) bool {
 	case pick < 4 && s.behind > 0:
 		h := c17RereadHooks[rnd.IntN(len(c17RereadHooks))]
 		kill = h.name
-		env = append(env, fmt.Sprintf("VERIF_CRASH=%s:%d", h.name, 1+rnd.IntN(s.behind)))
+		kmax := 2
+		if applyMax > 0 {
+			kmax = max(1, s.behind/applyMax)
+		}
+		env = append(env, fmt.Sprintf("VERIF_CRASH=%s:%d", h.name, 1+rnd.IntN(kmax)))
 	case pick < 5 && s.chunk > 0:
 		h := c17RotateHooks[rnd.IntN(len(c17RotateHooks))]
 		kill = h.name
@@ -250,6 +262,13 @@ func (c *c17Ctx) c17MasterRound(s *c17Seq, round int, rnd *rand.Rand) bool {
 			r.Violation("C17/failed-callback/error-swallowed", "Do returned nil although the callback returned an error", c17Merge(wit, map[string]any{"line": e}))
 		}
 	}
+	if len(ch.earlyAck) > 0 {
+		r.Violation("C17/ack/before-binlog-commit", fmt.Sprintf("wait-for-commit mode: Do returned for a write (id, engine offset after it, last committed binlog offset): %s — %d such returns in this child", ch.earlyAck[0], len(ch.earlyAck)), wit)
+	}
+	if len(ch.earlyRead) > 0 {
+		r.Violation("C17/doread/before-binlog-commit", fmt.Sprintf("wait-for-commit mode: a read through Do returned (rows, engine offset) %s while the binlog had not committed that offset — %d such reads", ch.earlyRead[0], len(ch.earlyRead)), wit)
+	}
+	c.w.Count("acks_observed", int64(len(ch.acks)))
 	for _, id := range ch.acks {
 		if s.mode == "wait" {
 			s.acked[id] = true
@@ -492,13 +511,15 @@ func (c *c17Ctx) c17ReplicaRound(s *c17Seq, round int, rnd *rand.Rand, last bool
 	}
 	env := []string{"VERIF_C17_MODE=" + s.mode, fmt.Sprintf("VERIF_C17_CHUNK=%d", s.chunk), fmt.Sprintf("VERIF_C17_COMMIT_MS=%d", []int{1, 5, 50, 2000}[rnd.IntN(4)]),
 		fmt.Sprintf("VERIF_C17_EXPECT=%d", len(bl.evs)), fmt.Sprintf("VERIF_C17_READERS=%d", 1+rnd.IntN(2))}
+	applyMax := []int{0, 5, 40}[rnd.IntN(3)]
+	env = append(env, fmt.Sprintf("VERIF_C17_APPLY_MAX=%d", applyMax))
 	kill, killAfter := "clean_exit", 0
 	if !last {
 		hs := []c17Hook{{"sqlite.replica.after_apply", 0}, {"sqlite.replica.after_update_offset", 0}, {"sqlite.commit.before", 0}, {"sqlite.commit.after", 0}}
 		h := hs[rnd.IntN(len(hs))]
-		k := 1 + rnd.IntN(max(1, len(bl.evs)))
-		if strings.HasPrefix(h.name, "sqlite.commit") {
-			k = 1 + rnd.IntN(4)
+		k := 1 + rnd.IntN(2)
+		if applyMax > 0 && !strings.HasPrefix(h.name, "sqlite.commit") {
+			k = 1 + rnd.IntN(max(1, len(bl.evs)/applyMax))
 		}
 		kill = h.name
 		env = append(env, fmt.Sprintf("VERIF_CRASH=%s:%d", h.name, k))
@@ -540,7 +561,7 @@ func (c *c17Ctx) c17ReplicaRound(s *c17Seq, round int, rnd *rand.Rand, last bool
 	return ok
 }
 
-func c17Body(t *testing.T, unit string, seqQuick, seqThorough, workers int) {
+func c17Body(t *testing.T, unit string, seqQuick, seqThorough, workersQuick, workersThorough int) {
 	if os.Getenv("VERIF_C17_ROLE") != "" {
 		t.Skip("child role set")
 	}
@@ -558,6 +579,7 @@ func c17Body(t *testing.T, unit string, seqQuick, seqThorough, workers int) {
 		nSeq = v // calibration aid only
 	}
 	base := r.SubSeed("seq")
+	workers := r.N(workersQuick, workersThorough)
 	r.Parallel(workers, "seq", func(w *verifkit.Worker) {
 		c := &c17Ctx{r: r, w: w, unit: unit}
 		for id := w.Index; id < nSeq; id += workers {
@@ -570,5 +592,5 @@ func c17Body(t *testing.T, unit string, seqQuick, seqThorough, workers int) {
 	}
 }
 
-func TestVerifC17(t *testing.T)     { c17Body(t, "crash", 12, 170, 6) }
-func TestVerifC17Race(t *testing.T) { c17Body(t, "crash-race", 3, 24, 3) }
+func TestVerifC17(t *testing.T)     { c17Body(t, "crash", 12, 170, 6, 10) }
+func TestVerifC17Race(t *testing.T) { c17Body(t, "crash-race", 3, 24, 3, 6) }
